@@ -33,6 +33,7 @@ class New(Exception):
 
 
 PRE = ["raise", "noyield", "yield"]
+VALUE = {0: "V", 1: None, 2: 0}  # what the generator yields to ``as``: also None / falsy
 HANDLER = ["none", "finally", "swallow", "reraise", "raise_new", "raise_new_from_none", "raise_same_type", "return",
            "yield_again", "raise_sai", "raise_si",
            # the type and chaining of what the generator raises matters to the classification in __aexit__
@@ -111,31 +112,31 @@ def make(pre, handler, after, log, susp):
         if pre == "noyield":
             return
         if handler == "none":
-            yield "V"
+            yield VALUE[susp]
             log.append("resumed")
         elif handler == "finally":
             try:
-                yield "V"
+                yield VALUE[susp]
                 log.append("resumed")
             finally:
                 log.append("finally")
         elif handler in ("finally_raise_new", "finally_raise_runtime"):
             try:
-                yield "V"
+                yield VALUE[susp]
                 log.append("resumed")
             finally:
                 log.append("finally")
                 raise (New if handler == "finally_raise_new" else RuntimeError)("cleanup failed")
         elif handler == "finally_return":
             try:
-                yield "V"
+                yield VALUE[susp]
                 log.append("resumed")
             finally:
                 log.append("finally")
                 return  # noqa: B012 - swallows whatever was thrown in
         else:
             try:
-                yield "V"
+                yield VALUE[susp]
                 log.append("resumed")
             except BaseException as e:
                 log.append(("caught", type(e).__name__))
